@@ -284,6 +284,20 @@ def _ops():
             ch.append("evalDistribution changed the model's own parameter tables")
         return "sv:%r:%r" % (L.sv_radius, L.sv_pd), v, ch
 
+    def sv_eval_near(L):
+        # q values that agree with Q1 to 2e-6 (relative) but are not Q1: another request, another answer
+        sv_new(L)
+        q = np.array(Q1) * (1.0 + 2e-6)
+        v = L.sv.evalDistribution(q)
+        return "svnear:%r:%r" % (L.sv_radius, L.sv_pd), v, []
+
+    def sv_eval_f32(L):
+        # the same grid handed over as float32 (values differ from Q1 in the 8th digit)
+        sv_new(L)
+        q = np.array(Q1, dtype="float32")
+        v = L.sv.evalDistribution(q)
+        return "svf32:%r:%r" % (L.sv_radius, L.sv_pd), v, []
+
     def sv_clone_eval(L):
         sv_new(L)
         c = L.sv.clone()
@@ -404,7 +418,7 @@ def _ops():
         ("prod", generic("sphere@hardsphere", "q1", "ps")),
         ("mix", generic("sphere+cylinder", "q1", "mix")),
         ("direct", direct), ("iq_fn", iq_fn),
-        ("sv_set", sv_set), ("sv_pd", sv_pd), ("sv_eval", sv_eval), ("sv_clone", sv_clone_eval), ("sv_clone_mut", sv_clone_mut), ("sv_2d", sv_2d),
+        ("sv_set", sv_set), ("sv_pd", sv_pd), ("sv_eval", sv_eval), ("sv_eval_near", sv_eval_near), ("sv_eval_f32", sv_eval_f32), ("sv_clone", sv_clone_eval), ("sv_clone_mut", sv_clone_mut), ("sv_2d", sv_2d),
         ("sv_array", sv_array), ("rel_pair", rel_pair), ("fq_refused", fq_refused), ("svps", svps_comp),
         ("release", release), ("reload", reload),
     ]
@@ -412,7 +426,7 @@ def _ops():
 
 
 QUICK_OPS = ["mk_q2", "sph_monoflag", "sph_disp", "sph_zero", "sph2d_mag", "sph2d_mono", "sph_fq", "cyl_fq", "cyl_mesh", "cyl_ngauss", "py_nv", "py_2",
-             "prod", "mix", "direct", "sv_set", "sv_eval", "sv_clone_mut", "sv_array", "rel_pair", "fq_refused", "svps", "release", "reload"]
+             "prod", "mix", "direct", "sv_set", "sv_eval", "sv_eval_near", "sv_clone_mut", "sv_array", "rel_pair", "fq_refused", "svps", "release", "reload"]
 
 
 def _op_table(ctx_quick):
@@ -565,7 +579,7 @@ def _build_oracle(ctx, ops):
             continue
         if n.startswith("sph_") or n == "sph_fq":
             variants = [[], ["mk_q2"]] if "mk_q2" in names else [[]]
-        elif n in ("sv_eval", "sv_clone", "sv_2d"):   # (sv_clone_mut: its request does not depend on the original's state)
+        elif n in ("sv_eval", "sv_eval_near", "sv_eval_f32", "sv_clone", "sv_2d"):   # (sv_clone_mut: its request does not depend on the original's state)
             variants = [[]]
             if "sv_set" in names:
                 variants.append(["sv_set"])
